@@ -592,6 +592,26 @@ class C13(PropBase):
             addrs.append(max(0, min(U64, a)))
         return "U %s %s" % (",".join(map(str, addrs)), ";".join("%d:%d:%s" % (b, sz, hx(n.encode())) for b, sz, n in mods))
 
+    BITFLIP_INS = [("488b0411", ["rcx", "rdx"]), ("488b04d1", ["rcx", "rdx"]), ("48890c13", ["rbx", "rdx"]), ("ff3411", ["rcx", "rdx"]),
+                   ("488b441108", ["rcx", "rdx"]), ("4a8b0401", ["rcx", "r8"]), ("48030411", ["rcx", "rdx"]), ("488b0413", ["rbx", "rdx"]),
+                   ("488b0409", ["rcx", "rcx"]), ("4b8b0401", ["r9", "r8"]), ("488b01", ["rcx"])]
+
+    def bitflip_b_case(self, rng):
+        """B: an amd64 crash on an instruction with one or two registers in its memory operand (base, index — in that order), each
+        register a distinct single bit (so one flip away from null: at least one candidate per register); the source registers of
+        crash_info.possible_bit_flips in array order against the model's BTreeSet of the operand registers"""
+        ins, regs = rng.choice(self.BITFLIP_INS)
+        bits = []
+        while len(bits) < 6:
+            b = 12 + rng.below(34)
+            if b not in bits:
+                bits.append(b)
+        vals = dict(zip(["rcx", "rdx", "rbx", "r8", "r9", "rax"], [1 << b for b in bits]))
+        regtxt = "rip=4194304,rsp=65536," + ",".join("%s=%d" % kv for kv in vals.items())
+        addr = vals[regs[0]] + (vals[regs[1]] if len(regs) > 1 and regs[1] != regs[0] else 8)
+        return ("B %s | cpu=amd64 os=%s opt=%d T=1:65536:z64:rip=4194304,rsp=65536 X=1:%d:0:%d:0:0:0:%s R=4194304:%s"
+                % (",".join(regs), rng.choice(["linux", "win", "mac"]), rng.below(3), rng.choice([11, 0xC0000005]), addr, regtxt, ins))
+
     def adaptive_case(self, rng):
         """A: 2..5 adaptive walks (decision trees of depth <= 4 over 2..5 modules: the next module depends on whether the last
         lookup found symbols) on ONE real Symbolizer with a scripted supplier (0..3 suspensions, all five outcomes), polled in
@@ -779,6 +799,9 @@ class C13(PropBase):
         for _ in range(n_e):
             cases.append(self.unloaded_u_case(rng))
         dist["U_unloaded_module_offsets"] = n_e
+        for _ in range(n_e // 2):
+            cases.append(self.bitflip_b_case(rng))
+        dist["B_bitflip_source_register_order"] = n_e // 2
         # C03's structured generator (without the deep-stack theme: 24 runs per case)
         themes = ["plain", "symbols", "symbols", "symbols", "limits", "guard", "instr", "overlap", "modules", "exc"]
         k = 0
@@ -840,7 +863,7 @@ class C13(PropBase):
     def oracle(self, case, ans, profile):
         if ans.startswith("P;;"):
             return "panic or hang while processing: " + ans[3:240]
-        if case[:2] in ("R ", "E ", "L ", "Q ", "A ", "P ", "U "):
+        if case[:2] in ("R ", "E ", "L ", "Q ", "A ", "P ", "U ", "B "):
             return None if ans[:1] == case[0] else "unparseable answer " + ans[:80]
         d = dict(t.split("=", 1) for t in ans.split() if "=" in t)
         if "n" not in d:
@@ -864,7 +887,7 @@ class C13(PropBase):
         return msg
 
     def nontrivial(self, case, ans):
-        if case[:2] in ("R ", "E ", "L ", "Q ", "A ", "P ", "U "):
+        if case[:2] in ("R ", "E ", "L ", "Q ", "A ", "P ", "U ", "B "):
             return len(ans) > 2
         return " thr=0 " not in ans and ans.startswith("n=")
 
